@@ -5,7 +5,7 @@
                 1 = model and implementation differ, property still holds on the observation
                 2 = they differ and the property fails on the implementation's observation
                 3 = they agree and the property fails (model mirrors a defect) *)
-From Verif Require Export Lib.Bytes C04.Model C04.Spec.
+From Verif Require Export Lib.Bytes C04.Model C04.Spec C04.Drain C04.DrainSpec.
 From VerifGen Require Import Consts.
 Open Scope Z_scope.
 
@@ -14,30 +14,11 @@ Definition code (agree spec_ok : bool) : N :=
   | true, true => 0 | false, true => 1 | false, false => 2 | true, false => 3
   end%N.
 
-Fixpoint list_eqb {A} (eqb : A -> A -> bool) (a b : list A) : bool :=
-  match a, b with
-  | [], [] => true
-  | x :: a', y :: b' => eqb x y && list_eqb eqb a' b'
-  | _, _ => false
-  end.
-
 (* error classes as numbered by the harness *)
 Definition rc_of_N (n : N) : rc :=
   match n with
   | 0 => Ok | 1 => EOF | 2 => NotOpen | 3 => SegFull | 4 => QueueFull | 5 => Blocked | 6 => Other | _ => Panic
   end%N.
-
-(* snapshot of one segment's in-memory fields: id pos currentSize size maxSize len(buf) cursor *)
-Inductive segobs := SO (id : N) (pos csz size max buflen cur : Z).
-
-Definition segobs_eqb (a b : segobs) : bool :=
-  match a, b with
-  | SO i p c s m bl cu, SO i' p' c' s' m' bl' cu' =>
-    N.eqb i i' && (p =? p') && (c =? c') && (s =? s') && (m =? m') && (bl =? bl') && (cu =? cu')
-  end.
-
-Definition seg_snapshot (s : seg) : segobs :=
-  SO (sid s) (spos s) (scsz s) (ssize s) (smax s) (zlen (sbuf s)) (scur s).
 
 (* what the harness saw from one call: error class, block returned by Current, Empty(),
    every segment's fields, and the blocks a fresh reader of a copy of the directory gets
@@ -64,7 +45,10 @@ Inductive case :=
 | CSplit (sizes : list Z) (blocks : list (list N)) (outcome : N)
 | CMarshal (shard : N) (pts : list bytes) (impl : bytes) (roundtrip : bool)
 (* unmarshalWrite(b): class 0 ok / 1 too short / 2 short buffer / 3 panic *)
-| CUnmarshal (b : bytes) (cls : N) (shard : N) (pts : list bytes).
+| CUnmarshal (b : bytes) (cls : N) (shard : N) (pts : list bytes)
+(* op sequence on a real hh.Service (fake shardWriter scripted by the oracle, fake metaClient):
+   per step what the harness saw (DrainSpec.svobs); directories at the end *)
+| CSvc (maxsize cap : Z) (steps : list (sop * svobs)) (files : list (N * N * list (N * bytes))).
 
 (* ---- op sequences ---- *)
 
@@ -138,8 +122,42 @@ Definition um_eqb (m : um_out) (cls shard : N) (pts : list bytes) : bool :=
   | UmShortBuffer s p => N.eqb cls 2 && N.eqb s shard && blocks_eqb p pts
   end.
 
+(* ---- service / consumer ---- *)
+Definition kobs_eqb (tbl : list block) (e : key * queue) (o : kobs) : bool :=
+  let '(k, q) := e in
+  N.eqb (fst k) (ko_node o) && N.eqb (snd k) (ko_shard o) && Bool.eqb (q_empty q) (ko_empty o)
+  && list_eqb segobs_eqb (map seg_snapshot (qsegs q)) (ko_segs o)
+  && blocks_eqb (visible q) (map (fun i => nth (N.to_nat i) tbl [999%N]) (ko_vis o)).
+
+Definition call_eqb (a b : N * N * list bytes * N) : bool :=
+  let '(n1, s1, p1, w1) := a in let '(n2, s2, p2, w2) := b in
+  N.eqb n1 n2 && N.eqb s1 s2 && blocks_eqb p1 p2 && N.eqb w1 w2.
+
+Fixpoint svc_agree (tbl : list block) (s : svc) (steps : list (sop * svobs)) : bool * svc :=
+  match steps with
+  | [] => (true, s)
+  | (o, ob) :: r =>
+    let '(cn, evs, s') := sstep s o in
+    let ents := sort_procs (sv_procs s') in
+    let ok :=
+      N.eqb (fst cn) (vo_rc ob) && (snd cn =? vo_n ob)
+      && list_eqb call_eqb (model_calls evs) (vo_calls ob)
+      && list_eqb (kobs_eqb tbl) ents (vo_keys ob)
+      && list_eqb (fun k d => N.eqb (fst k) (fst d) && N.eqb (snd k) (snd d)) (map fst ents) (vo_dirs ob) in
+    if ok then svc_agree tbl s' r else (false, s')
+  end.
+
+Definition files_eqb (e : key * queue) (f : N * N * list (N * bytes)) : bool :=
+  let '(k, q) := e in let '(n, sh, d) := f in
+  N.eqb (fst k) n && N.eqb (snd k) sh && disk_eqb (disk_of q) d.
+
 Definition check_case (c : case) : N :=
   match c with
+  | CSvc maxsize cap steps files =>
+    let tbl := svc_tbl (map fst steps) in
+    let '(ag, s) := svc_agree tbl (svc_init maxsize cap) steps in
+    let agree := ag && list_eqb files_eqb (sort_procs (sv_procs s)) files in
+    code agree (judge_run tbl [] [] steps)
   | CSeq maxsize cap steps files =>
     let tbl := appended steps in
     let '(ag, q) := seq_agree tbl (q_init maxsize cap) steps in
